@@ -416,6 +416,11 @@ fn main() {
                     Err(e) => json!({"err": format!("{e}"), "text": buf}),
                 }
             }),
+            "graphemes" => guard(|| {
+                use unicode_segmentation::UnicodeSegmentation;
+                let t = s(&op["text"]);
+                json!({"ok": true, "clusters": t.graphemes(true).map(|g| g.chars().count()).collect::<Vec<_>>()})
+            }),
             "fullwidth" => guard(|| json!({"ok": true, "out": KyteaFullwidthFilter.filter(s(&op["text"]))})),
             "observe" => guard(|| observe(sents.get(&s(&op["s"])).expect("sentence id"), op["cands"].as_bool().unwrap_or(false))),
             "model_roundtrip" => guard(|| {
